@@ -170,6 +170,10 @@ func c12Families(thorough bool) []family {
 		{"right assoc chain", func(d int) string { return "2" + rep("^2", d) }, deep + 10},
 		{"subscript chain", func(d int) string { return rep("[", 1) + "[1]" + rep("][0]", 1) + rep("[0]", d) }, deep + 10},
 		{"member chain", func(d int) string { return "{a:1}" + rep(".a", d) }, deep + 10},
+		{"method chain", func(d int) string { return "n" + rep(".abs()", d) }, deep + 10},
+		{"method chain with arguments", func(d int) string { return "n" + rep(".max(1)", d) }, deep + 10},
+		{"method chain on literal", func(d int) string { return "[1]" + rep(".union([2])", d) }, deep + 10},
+		{"method inside arguments", func(d int) string { return rep("n.max(", d) + "1" + rep(")", d) }, deep + 10},
 		{"list in subscript", func(d int) string { return "[1]" + rep("[[0]", d) + rep("[0]]", d) }, deep},
 		{"mixed open", func(d int) string { return rep("[{a:(", d) }, deep},
 		{"lists of calls", func(d int) string { return rep("[len(", d) + "[]" + rep(")]", d) }, deep},
